@@ -1,1 +1,5 @@
 import HexProps.C03
+import HexProps.C11
+import HexProps.C12
+import HexProps.C15
+import HexProps.C18
